@@ -148,6 +148,8 @@ def suites(tier: str) -> t.List[Suite]:
     return [
         Suite('conv', check, strategy=lambda: gen.conv_cases(gen.all_type_specs(leaves)), examples=6000 if big else 500,
               budget_s=480 if big else 40, render=gen.render_case),
+        Suite('subclass-inputs', check, strategy=lambda: gen.subclassed_cases(gen.all_type_specs(3, with_classes=False)), examples=2000 if big else 150,
+              budget_s=120 if big else 15, render=gen.render_case),
         Suite('generic-inherit', check_generic, strategy=generic_cases, examples=300 if big else 30, budget_s=60 if big else 10,
               render=lambda c: {'shape': c[0], 'arguments': c[1]}),
     ]
